@@ -88,9 +88,11 @@ async fn query_nameserver_udp_notimeout(
     let sock = UdpSocket::bind("0.0.0.0:0").await.ok()?;
     sock.connect(address).await.ok()?;
     send_udp_bytes(&sock, serialised_request).await.ok()?;
-    sock.recv(&mut buf).await.ok()?;
+    let received = sock.recv(&mut buf).await.ok()?;
 
-    Message::from_octets(&buf).ok()
+    // only what the nameserver sent: parsing the zero padding of the buffer too
+    // would complete a datagram cut short inside a record with zero octets
+    Message::from_octets(&buf[..received]).ok()
 }
 
 /// Send a message to a remote nameserver over TCP, returning the
